@@ -114,3 +114,66 @@ func ZZ_C20_sum_exact_on_dyadic() {
 	zzvCover("sum")
 	zzvAssert("sum-exact", d.Sum() == want)
 }
+
+// extremes asked BEFORE any quantile query (the dataset is still unsorted), in either order
+func zzC20ExtremesFirst(n int) {
+	zzvBound("extremes first", "n values (all non-NaN float64 bit patterns), Min/Max asked before any quantile query, in either order, then again after a quantile query")
+	vals := zzValues(n)
+	d := NewDataset()
+	for _, v := range vals {
+		d.Add(v)
+	}
+	zzvCover("built")
+	if zzvChoose("maxFirst", 2) == 1 {
+		zzvAssert("max-exact-on-unsorted-data", zzIsOrderStat(vals, d.Max(), n-1))
+		zzvAssert("min-exact-after-max", zzIsOrderStat(vals, d.Min(), 0))
+	} else {
+		zzvAssert("min-exact-on-unsorted-data", zzIsOrderStat(vals, d.Min(), 0))
+		zzvAssert("max-exact-after-min", zzIsOrderStat(vals, d.Max(), n-1))
+	}
+	zzvAssert("upper-quantile-1-is-max", zzvSameBits(d.UpperQuantile(1), d.Max()) || d.UpperQuantile(1) == d.Max())
+	zzvAssert("lower-quantile-0-is-min", zzvSameBits(d.LowerQuantile(0), d.Min()) || d.LowerQuantile(0) == d.Min())
+	zzvAssert("values-kept", len(d.Values) == n && d.Count == float64(n))
+}
+func ZZ_C20_extremes_first_n1() { zzC20ExtremesFirst(1) }
+func ZZ_C20_extremes_first_n2() { zzC20ExtremesFirst(2) }
+func ZZ_C20_extremes_first_n3() { zzC20ExtremesFirst(3) }
+
+// merging (also into an EMPTY dataset) gives the receiver its own memory: later additions to either
+// side, and the re-sorting a query triggers, never reach the other
+func zzC20MergeIndependent(a, b int) {
+	zzvBound("merge independence", "receiver with a values (a may be 0), argument with b values, argument optionally queried before; after the merge one more value is added to each side and both are queried")
+	first := zzValues(a)
+	second := zzValues(b)
+	d, o := NewDataset(), NewDataset()
+	for _, v := range first {
+		d.Add(v)
+	}
+	for _, v := range second {
+		o.Add(v)
+	}
+	if zzvChoose("argumentQueriedBefore", 2) == 1 {
+		o.Min()
+	}
+	d.Merge(o)
+	zzvCover("merged")
+	zzvAssert("receiver-and-argument-share-no-memory", zzvDisjoint(d, o))
+	x, y := zzValues(1)[0], zzValues(1)[0]
+	if zzvChoose("order", 2) == 1 {
+		d.Add(x)
+		o.Add(y)
+	} else {
+		o.Add(y)
+		d.Add(x)
+	}
+	allD := append(append(append([]float64{}, first...), second...), x)
+	allO := append(append([]float64{}, second...), y)
+	zzvAssert("argument-min-after", zzIsOrderStat(allO, o.Min(), 0))
+	zzvAssert("receiver-min-after", zzIsOrderStat(allD, d.Min(), 0))
+	zzvAssert("receiver-max-after", zzIsOrderStat(allD, d.Max(), len(allD)-1))
+	zzvAssert("argument-max-after", zzIsOrderStat(allO, o.Max(), len(allO)-1))
+	zzvAssert("counts-after", d.Count == float64(len(allD)) && o.Count == float64(len(allO)) && len(d.Values) == len(allD) && len(o.Values) == len(allO))
+}
+func ZZ_C20_merge_into_empty_independent_1() { zzC20MergeIndependent(0, 1) }
+func ZZ_C20_merge_into_empty_independent_2() { zzC20MergeIndependent(0, 2) }
+func ZZ_C20_merge_independent_1_1()          { zzC20MergeIndependent(1, 1) }
